@@ -218,3 +218,13 @@ impl Clone for IBig {
         self.0.clone_from(&source.0)
     }
 }
+
+/// Read-only verification hook, compiled only with `--cfg dashu_verif`.
+#[cfg(dashu_verif)]
+impl IBig {
+    /// See `Repr::__verif_raw`.
+    #[doc(hidden)]
+    pub fn __verif_repr(&self) -> (isize, usize, bool, alloc::vec::Vec<crate::Word>) {
+        self.0.__verif_raw()
+    }
+}
